@@ -1,0 +1,18 @@
+//go:build verif
+
+// Contracts for package responsemanager (properties C07, C10, C05, C23, C25). Comment-only:
+// read by /verif/bin/gsv, never compiled into the package.
+
+package responsemanager
+
+//@ -- C07: the link budget handed to the traverser is the smaller non-zero of the global and the
+//@ -- per-request limit (none when both are zero).
+//@ func ResponseManager.taskDataForKey
+//@   lenient
+//@   safety off
+//@   modifies inProgressResponseStatus.traverser, inProgressResponseStatus.state, alloc, Budget.NodeBudget, Budget.LinkBudget
+//@   watch globalMax: rm.maxLinksPerRequest
+//@   callsite TraversalBuilder.Start: assert
+//@        let g := rm.maxLinksPerRequest :: let r := response.maxLinks ::
+//@        let eff := ite(g == 0, r, ite(r != 0 && r < g, r, g)) ::
+//@        (eff == 0 <==> self.Budget == nil) && (eff != 0 ==> self.Budget.LinkBudget == eff)
